@@ -3,6 +3,7 @@ package cli
 import (
 	"context"
 	"fmt"
+	"io"
 	"net"
 	"reflect"
 	"time"
@@ -15,15 +16,17 @@ import (
 	"verif/internal/xport"
 )
 
-// Session is one long-lived network client on a scripted transport: many request calls on the same Client value (what a polling
+// Session is one long-lived client (network or serial) on a scripted transport: many request calls on the same Client value (what a polling
 // program does for days), each with its own reply stream and read script. Checks use it to look at a property after the client has
 // aged: counters that wrap, buffers that fill up, allowances that run out.
 type Session struct {
-	Kind   string
-	script *xport.Script
-	client *modbus.Client
-	rec    *Recorder
-	seq    int
+	Kind    string
+	script  *xport.Script
+	client  *modbus.Client
+	do      func(context.Context, packet.Request) (packet.Response, error)
+	closeFn func() error
+	rec     *Recorder
+	seq     int
 	// Calls is the number of request calls made so far
 	Calls int
 }
@@ -37,15 +40,27 @@ func NewSession(kind string, readTimeoutMs int, hooks bool) (*Session, error) {
 // NewSessionWith is NewSession; with explicitParser the configuration names the protocol's standard response parser explicitly
 // (see Scenario.ExplicitParser).
 func NewSessionWith(kind string, readTimeoutMs int, hooks, explicitParser bool) (*Session, error) {
-	if IsSerial(kind) {
-		return nil, fmt.Errorf("harness: sessions are for network clients")
-	}
 	s := &Session{Kind: kind}
 	s.script = &xport.Script{IdleKind: "timeout"}
 	s.script.Seq = &s.seq
 	rt := time.Duration(readTimeoutMs) * time.Millisecond
 	if rt == 0 {
 		rt = 2 * time.Second
+	}
+	if IsSerial(kind) {
+		s.script.IdleKind, s.script.IdleWait = "empty", 300*time.Microsecond
+		var port io.ReadWriteCloser = &xport.ScriptPort{S: s.script}
+		if kind == SerialFlush {
+			port = &xport.ScriptPortFlusher{ScriptPort: xport.ScriptPort{S: s.script}}
+		}
+		opts := []modbus.SerialClientOptionFunc{modbus.WithSerialReadTimeout(rt)}
+		if hooks {
+			s.rec = &Recorder{seq: &s.seq}
+			opts = append(opts, modbus.WithSerialHooks(s.rec))
+		}
+		sc := modbus.NewSerialClient(port, opts...)
+		s.do, s.closeFn = sc.Do, sc.Close
+		return s, nil
 	}
 	conf := modbus.ClientConfig{ReadTimeout: rt, WriteTimeout: time.Second,
 		DialContextFunc: func(ctx context.Context, address string) (net.Conn, error) {
@@ -69,6 +84,7 @@ func NewSessionWith(kind string, readTimeoutMs int, hooks, explicitParser bool) 
 	if err := s.client.Connect(context.Background(), "script:1"); err != nil {
 		return nil, err
 	}
+	s.do, s.closeFn = s.client.Do, s.client.Close
 	return s, nil
 }
 
@@ -137,7 +153,7 @@ func (s *Session) CallWith(q packet.Request, stream []byte, events []xport.Event
 			}
 			ch <- x
 		}()
-		x.resp, x.err = s.client.Do(context.Background(), q)
+		x.resp, x.err = s.do(context.Background(), q)
 	}()
 	select {
 	case x := <-ch:
@@ -156,4 +172,4 @@ func (s *Session) CallWith(q packet.Request, stream []byte, events []xport.Event
 }
 
 // Close closes the client.
-func (s *Session) Close() { _ = s.client.Close() }
+func (s *Session) Close() { _ = s.closeFn() }
